@@ -245,6 +245,14 @@ func c15Shape(s *Snapshot) (pre bool, mixed bool) {
 	return todo > 0 && held == 0, epicEdge && cross
 }
 
+type c15MacroState struct {
+	tag   string
+	stage int
+}
+
+// c15Macro holds, per running history, the progress of the scripted structure of TestC15.
+var c15Macro = map[*World]*c15MacroState{}
+
 func TestC15(t *testing.T) {
 	RunSeq(t, SeqCheck{
 		Prop: "C15",
@@ -260,6 +268,58 @@ func TestC15(t *testing.T) {
 				pre, mixed := c15Shape(s.Out.Post)
 				return pre && mixed
 			})
+		},
+		GenOp: func(rt *rapid.T, w *World, pre *Snapshot, prof Profile) Op {
+			// now and then a fixed structure is built step by step: three epics in a chain whose
+			// middle one stays empty, a task of the first waiting for a task of the last
+			// (legal: an empty epic is complete), then prune --yes, which removes the middle
+			// epic - whatever prune does with the edges around it must not create a deadlock
+			st := c15Macro[w]
+			if st == nil && w.StepNo >= 1 && w.StepNo <= 12 && pct(rt, 5, "c15.chain") {
+				st = &c15MacroState{tag: w.UniqueTitle("chain")}
+				c15Macro[w] = st
+				if len(c15Macro) > 64 {
+					for k := range c15Macro {
+						if k != w {
+							delete(c15Macro, k)
+						}
+					}
+				}
+			}
+			if st != nil {
+				find := func(name string) *Ref {
+					for _, id := range pre.SortedIDs() {
+						if pre.Items[id].Title == st.tag+" "+name {
+							r := refGen{rt, w, pre}.ref(id)
+							return &r
+						}
+					}
+					return nil
+				}
+				e1, e2, e3, t1, t3 := find("E1"), find("E2"), find("E3"), find("T1"), find("T3")
+				st.stage++
+				switch {
+				case st.stage == 1:
+					return Op{Kind: "new_epic", Mode: "json", Title: sp(st.tag + " E1")}
+				case st.stage == 2:
+					return Op{Kind: "new_epic", Mode: "json", Title: sp(st.tag + " E2")}
+				case st.stage == 3:
+					return Op{Kind: "new_epic", Mode: "json", Title: sp(st.tag + " E3")}
+				case st.stage == 4 && e1 != nil && e2 != nil && e3 != nil:
+					return Op{Kind: "sequence", Refs: []Ref{*e1, *e2, *e3}}
+				case st.stage == 5 && e1 != nil:
+					return Op{Kind: "new_task", Mode: "json", Title: sp(st.tag + " T1"), Epic: e1}
+				case st.stage == 6 && e3 != nil:
+					return Op{Kind: "new_task", Mode: "json", Title: sp(st.tag + " T3"), Epic: e3}
+				case st.stage == 7 && t1 != nil && t3 != nil:
+					return Op{Kind: "sequence", Refs: []Ref{*t3, *t1}}
+				case st.stage == 8:
+					delete(c15Macro, w)
+					return Op{Kind: "prune_yes"}
+				}
+				delete(c15Macro, w)
+			}
+			return genOp(rt, w, pre, prof)
 		},
 		AfterStep: func(rt *rapid.T, w *World, h []stepInfo) []Violation {
 			post := h[len(h)-1].Out.Post
